@@ -400,4 +400,34 @@ func dischargeAll(obls []*Obligation, dir string, timeoutMs int, par int, confir
 		}(ob)
 	}
 	wg.Wait()
+	// Second chance, in a quiet phase: an obligation that was not decided (a timeout, "unknown", or a
+	// model of the ground-instantiated query only, which refutes nothing) while up to par x 3 solvers
+	// shared the cores is tried once more, two at a time, with four times the limit. A real refutation
+	// (a model of the full query) is final and is not retried.
+	var again []*Obligation
+	for _, ob := range obls {
+		if ob.Cover || ob.Verdict == "unsat" || (ob.Verdict == "sat" && ob.SatMode != "ground") {
+			continue
+		}
+		again = append(again, ob)
+	}
+	if len(again) > 0 && len(again) <= 12 {
+		sem2 := make(chan struct{}, 2)
+		for _, ob := range again {
+			wg.Add(1)
+			sem2 <- struct{}{}
+			go func(ob *Obligation) {
+				defer wg.Done()
+				defer func() { <-sem2 }()
+				first := ob.Seconds
+				ob.Verdict, ob.Solver, ob.Model, ob.SatMode = "", "", "", ""
+				discharge(ob, dir, timeoutMs*4, confirm)
+				ob.Seconds += first
+				if ob.Verdict == "unsat" {
+					ob.Solver += " (second attempt)"
+				}
+			}(ob)
+		}
+		wg.Wait()
+	}
 }
